@@ -22,7 +22,7 @@ DiceSet == {"dice.setTimes", "dice.setKeepLow", "dice.setKeepHigh", "dice.setDro
 WodSet == {"wod.pool", "wod.points", "wod.threshold", "wod.thresholdQ"}
 DcSet == {"dc.setPool", "dc.setPoints"}
 Jumps == {"jmp", "jne", "je", "je.dup"}
-NoOps == {"store.local", "store.global", "nop", "or", "invoke.self"}   \* opcodes the dispatch loop has no case for
+NoOps == {"store.global", "nop", "or", "invoke.self"}   \* opcodes the dispatch loop has no case for
 
 \* operand-stack effect <<pops, pushes>> of the straight-line opcodes (Appendix A of DESIGN.md)
 Effect(i) ==
@@ -40,7 +40,7 @@ Effect(i) ==
     [] i.op = "attr.set"     -> <<2, 1>>
     [] i.op = "slice.get"    -> <<4, 1>>
     [] i.op = "slice.set"    -> <<5, 1>>
-    [] i.op = "store"        -> <<1, 1>>           \* peeks: needs one value, leaves it
+    [] i.op \in {"store", "store.local"} -> <<1, 1>>   \* peeks: needs one value, leaves it
     [] i.op = "pop"          -> <<1, 0>>
     [] i.op = "popn"         -> <<i.n, 0>>
     [] i.op \in DiceSet \cup WodSet \cup DcSet -> <<1, 0>>
@@ -60,7 +60,7 @@ NeedsDc(i)   == i.op \in DcSet \cup {"dice.dc"}
 
 Known(i) == i.op \in Push1 \cup Bin \cup Un \cup DiceSet \cup WodSet \cup DcSet \cup Jumps \cup NoOps \cup
             {"push.last", "push.def_expr", "ld.d", "push.arr", "push.dict", "invoke", "item.get", "item.set", "attr.set",
-             "slice.get", "slice.set", "store", "pop", "popn", "dice", "coc.bonus", "coc.penalty", "dice.wod", "dice.dc",
+             "slice.get", "slice.set", "store", "store.local", "pop", "popn", "dice", "coc.bonus", "coc.penalty", "dice.wod", "dice.dc",
              "dice.fate", "dice.init", "wod.init", "dc.setInit", "st.set", "st.mod", "st.x0", "st.x1", "ld.fs", "mark.detail",
              "block.push", "block.pop", "fstr.block.push", "fstr.block.pop", "ret", "halt"}
 
